@@ -21,10 +21,13 @@ Proof. vm_compute. reflexivity. Qed.
 Theorem C07_decomp_equiv_row : forall r, In r gen_rows -> row_spec r.
 Proof. exact (rows_ok_sound gen_rows C07_rows_checked). Qed.
 
-(* the table is the expected size: 7 gates x 4 qubits + 3 x 5 x 12 sampled rotations
-   + (CNOT, CPHASE) x 12 placements + MOV x 6 placements + MOV with unknown registers,
-   in both hardware settings *)
-Theorem C07_table_complete : List.length gen_rows = (2 * (7 * 4 + 3 * 5 * 12 + 2 * 12 + 6 + 1))%nat.
+(* the rows whose specification is the frozen table are exactly the expected ones: 7 gates x 4
+   qubits + 3 x 5 x 12 sampled rotations + (CNOT, CPHASE) x 12 placements + MOV x 6 placements + MOV
+   with unknown registers, in both hardware settings.  Further rows (VCustom: a vanilla gate added to
+   the code base after the table was frozen, specification = exact K32 form of the class's own
+   to_matrix()) are checked by the same theorem C07_decomp_equiv_row. *)
+Theorem C07_table_complete :
+  List.length (filter is_frozen gen_rows) = (2 * (7 * 4 + 3 * 5 * 12 + 2 * 12 + 6 + 1))%nat.
 Proof. vm_compute. reflexivity. Qed.
 
 (* Rotations at every encodable angle.  (1) the model of the immediate rewriting
